@@ -292,10 +292,25 @@ def run_cond(case, out, stats):
             tr("actor", aid, "wait ended ok=%s" % ok)
             if ok:
                 if aid in marked:
-                    del marked[aid]
+                    mc = marked.pop(aid)
+                    # the waiter may have been woken by a floating (passed-on) notification instead, in which case
+                    # the notify() that marked it reached the next waiter of that moment: re-date the credit
+                    c0 = next((c for c in credits if joined[aid] <= c + 2 and c < mc), None)
+                    if c0 is not None:
+                        credits.remove(c0)
+                        credits.append(mc)
+                        stats["credit_redated"] += 1
                 elif any(joined[aid] <= c + 2 for c in credits):
                     credits.remove(next(c for c in credits if joined[aid] <= c + 2))
                     stats["credit_used"] += 1
+                elif any(joined[aid] <= mc + 2 and any(joined[m] <= c + 2 and c < mc for c in credits)
+                         for m, mc in marked.items()):
+                    # same ambiguity, seen from the other side: a still-marked waiter may hold the floating
+                    # notification, and this one received the notify() the model attributed to it
+                    m, mc = next((m, mc) for m, mc in marked.items() if joined[aid] <= mc + 2
+                                 and any(joined[m] <= c + 2 and c < mc for c in credits))
+                    credits.remove(next(c for c in credits if joined[m] <= c + 2 and c < mc))
+                    stats["credit_redated"] += 1
                 else:
                     out.bad("spurious-wakeup", "", f"actor {aid} returned from wait() at cycle {sim.now()} unnotified")
                 if aid in queue:
@@ -467,7 +482,7 @@ def run_case(case) -> Outcome:
         body = run_event(case, out, stats)
     else:
         stats = {"notify_n_lt_waiters": 0, "marked_waiter_cancelled": 0, "pass_on": 0, "cancel_around_notify": 0,
-                 "credit_used": 0}
+                 "credit_used": 0, "credit_redated": 0}
         body = run_cond(case, out, stats)
     _res, err, _sim = run_sim(case["config"], body)
     if err is not None:
